@@ -1020,63 +1020,6 @@ impl Transaction {
         }
 
         //
-        // BlockStake transactions are a special class of transactions that are
-        // affixed to blocks in order to propose them. This is used to add a form
-        // of "social slashing" -- attackers who wish to spend their own money in
-        // a "joyride" attack can be slashed as needed if the network must be
-        // forked to deal with problems created by malicious participants at low
-        // levels of fee-throughput.
-        //
-        if let TransactionType::BlockStake = self.transaction_type {
-            let mut total_stakes = 0;
-
-            for slip in self.to.iter() {
-                if !matches!(slip.slip_type, SlipType::BlockStake)
-                    && !matches!(slip.slip_type, SlipType::Normal)
-                {
-                    error!("staking transaction outputs are not staking");
-                    return false;
-                }
-
-                if matches!(slip.slip_type, SlipType::BlockStake) {
-                    total_stakes += slip.amount;
-                }
-            }
-
-            if total_stakes < blockchain.social_stake_requirement {
-                error!(
-                    "Not enough funds staked. expected: {:?}, staked: {:?}",
-                    blockchain.social_stake_requirement, total_stakes
-                );
-                return false;
-            }
-
-            let mut unique_keys: AHashSet<SaitoUTXOSetKey> = Default::default();
-
-            for slip in self.from.iter() {
-                if slip.utxoset_key == [0; UTXO_KEY_LENGTH] {
-                    return false;
-                }
-                if !blockchain.is_slip_unlocked(&slip.utxoset_key) {
-                    return false;
-                }
-                let utxo_slip = Slip::parse_slip_from_utxokey(&slip.utxoset_key).unwrap();
-                if utxo_slip.amount != slip.amount {
-                    return false;
-                }
-
-                unique_keys.insert(slip.utxoset_key);
-            }
-
-            if unique_keys.len() != self.from.len() {
-                // same utxo is used twice in the transaction
-                return false;
-            }
-
-            return true;
-        }
-
-        //
         // User-Originated Transactions
         //
         // most transactions are identifiable by the public_key that
@@ -1181,6 +1124,67 @@ impl Transaction {
                 error!("ERROR 802394: transaction spends more than it has available");
                 return false;
             }
+        }
+
+        //
+        // BlockStake transactions are a special class of transactions that are
+        // affixed to blocks in order to propose them. This is used to add a form
+        // of "social slashing" -- attackers who wish to spend their own money in
+        // a "joyride" attack can be slashed as needed if the network must be
+        // forked to deal with problems created by malicious participants at low
+        // levels of fee-throughput.
+        //
+        // they are created and signed by the staker like any other user-originated
+        // transaction, so by this point the sender, signature, routing path and
+        // outputs-do-not-exceed-inputs checks above have all been applied to them.
+        //
+        if let TransactionType::BlockStake = self.transaction_type {
+            let mut total_stakes = 0;
+
+            for slip in self.to.iter() {
+                if !matches!(slip.slip_type, SlipType::BlockStake)
+                    && !matches!(slip.slip_type, SlipType::Normal)
+                {
+                    error!("staking transaction outputs are not staking");
+                    return false;
+                }
+
+                if matches!(slip.slip_type, SlipType::BlockStake) {
+                    total_stakes += slip.amount;
+                }
+            }
+
+            if total_stakes < blockchain.social_stake_requirement {
+                error!(
+                    "Not enough funds staked. expected: {:?}, staked: {:?}",
+                    blockchain.social_stake_requirement, total_stakes
+                );
+                return false;
+            }
+
+            let mut unique_keys: AHashSet<SaitoUTXOSetKey> = Default::default();
+
+            for slip in self.from.iter() {
+                if slip.utxoset_key == [0; UTXO_KEY_LENGTH] {
+                    return false;
+                }
+                if !blockchain.is_slip_unlocked(&slip.utxoset_key) {
+                    return false;
+                }
+                let utxo_slip = Slip::parse_slip_from_utxokey(&slip.utxoset_key).unwrap();
+                if utxo_slip.amount != slip.amount {
+                    return false;
+                }
+
+                unique_keys.insert(slip.utxoset_key);
+            }
+
+            if unique_keys.len() != self.from.len() {
+                // same utxo is used twice in the transaction
+                return false;
+            }
+
+            return true;
         }
 
         //
